@@ -486,32 +486,33 @@ def unit_deals(ctx):
                 ctx.digest(r, b"".join(got) if r == 0 else b"")
                 det = {"len": ln, "count": count, "threshold": t, "secret": s, "m0": m0, "mi": mis, "k_tape": tape_bytes,
                        "ret": errname(r)}
+                sgn = "threshold=1" if t == 1 else "threshold>1"
                 if r != 0:
-                    ctx.violation("%s:ret:%s:%s" % (fn, errname(r), cls), "share fails on valid input", det)
+                    ctx.violation("%s:ret:%s:%s" % (fn, errname(r), sgn), "share fails on valid input", det)
                 else:
                     body = got
                     if api in ("share2", "share3"):
                         if [g[0] for g in got] != list(range(1, count + 1)):
-                            ctx.violation("%s:number-octet:%s" % (fn, cls), "first octets of the blocks are not 1..count",
+                            ctx.violation("%s:number-octet:%s" % (fn, sgn), "first octets of the blocks are not 1..count",
                                           dict(det, got=[g[0] for g in got]))
                         body = [g[1:] for g in got]
                     if api != "share3":
                         if body != model_shares:
                             bad = [i for i in range(count) if body[i] != model_shares[i]]
-                            ctx.violation("%s:value:%s" % (fn, cls), "partial secret differs from c mod (x^l + m_i)",
+                            ctx.violation("%s:value:%s" % (fn, sgn), "partial secret differs from c mod (x^l + m_i)",
                                           dict(det, users=bad, got=body[bad[0]], want=model_shares[bad[0]]))
                         if reqs is not None and reqs != [need]:
                             ctx.extra["gen_requests_unexpected"] = ctx.extra.get("gen_requests_unexpected", 0) + 1
                     else:
                         ok, k = M.consistent(body, s, m0, mis, t)
                         if not ok:
-                            ctx.violation("%s:value:%s" % (fn, cls),
+                            ctx.violation("%s:value:%s" % (fn, sgn),
                                           "partial secrets do not lie on any (x^l + m0)k + s with deg k < (threshold-1)l",
                                           dict(det, got=body))
                         # deterministic
                         r2, got2, _ = call_share(ctx, api, ln, count, t, s, m0, mis, tk, b"", seed)
                         if (r2, got2) != (r, got):
-                            ctx.violation("%s:nondeterministic:%s" % (fn, cls), "two calls differ", det)
+                            ctx.violation("%s:nondeterministic:%s" % (fn, sgn), "two calls differ", det)
                 lib.release()
             # model self-consistency: CRT recovery from the model's own shares
             if model_shares is not None:
@@ -557,10 +558,12 @@ def unit_deals(ctx):
                         det = {"len": ln, "count": count, "threshold": t, "users_in_order": [i + 1 for i in order],
                                "secret": s, "m0": m0, "mi": sub_mis, "numbers": sub_nums, "shares": sub_sh,
                                "ret": errname(r), "recovered": rec}
+                        # signature: how many CRT steps the recovery makes (1 share: none, 2: one, 3+: several)
+                        sgn = "shares=%s" % ("1" if len(order) == 1 else "2" if len(order) == 2 else "3+")
                         if r != 0:
-                            ctx.violation("%s:ret:%s:%s" % (rfn, errname(r), rcls), "recovery fails on valid partial secrets", det)
+                            ctx.violation("%s:ret:%s:%s" % (rfn, errname(r), sgn), "recovery fails on valid partial secrets", det)
                         else:
-                            ctx.violation("%s:value:%s" % (rfn, rcls),
+                            ctx.violation("%s:value:%s" % (rfn, sgn),
                                           "recovery from >= threshold partial secrets does not return the secret", det)
                     lib.release()
 
